@@ -99,6 +99,8 @@ pub struct PassResult {
     /// dependency set names an asset refreshed later in the same pass
     pub order_sensitive: BTreeSet<Key>,
     pub fixpoint_rounds: usize,
+    /// entries that did not exist before the pass (created as a side effect of a reload)
+    pub created: BTreeSet<Key>,
 }
 
 fn class_of_kind(k: io::ErrorKind) -> ErrClass {
@@ -731,6 +733,7 @@ impl Model {
         if !self.caches[c].hot {
             return res;
         }
+        let keys_before: BTreeSet<Key> = self.caches[c].entries.keys().cloned().collect();
         res.closure = self.closure(c, notified);
         let order_all = self.topo(c, &res.closure);
         res.order = order_all
@@ -778,7 +781,16 @@ impl Model {
         loop {
             rounds += 1;
             let mut changed = false;
-            for k in &res.order {
+            // the affected assets plus every entry that a reload of this pass
+            // created as a side effect (it was loaded while its dependencies
+            // were still being refreshed)
+            let mut todo: Vec<Key> = res.order.clone();
+            for k in fix.caches[c].entries.keys() {
+                if !keys_before.contains(k) && fix.reloadable(c, k) && !todo.contains(k) {
+                    todo.push(k.clone());
+                }
+            }
+            for k in &todo {
                 let mut rec = Some(RecCtx {
                     cache: c,
                     deps: BTreeSet::new(),
@@ -789,6 +801,8 @@ impl Model {
                         e.value = v;
                         changed = true;
                     }
+                    // dependency sets are re-learned at every reload
+                    fix.caches[c].graph.insert(k.clone(), rec.unwrap().deps);
                 }
             }
             if !changed || rounds >= 12 {
@@ -803,16 +817,51 @@ impl Model {
             }
             res.fixpoint.insert(k.clone(), fv);
         }
+        // side-effect entries whose value differs at the fixpoint
+        let side_effect_stale = fix.caches[c]
+            .entries
+            .iter()
+            .any(|(k, e)| !keys_before.contains(k) && self.caches[c].entries.get(k).map(|x| &x.value) != Some(&e.value));
+        if side_effect_stale {
+            res.order_sensitive.extend(res.order.iter().cloned());
+        }
+        // NOTE: the fixpoint is *not* committed.  The caller synchronises the
+        // model's values with the values observed in the real cache and judges
+        // every affected asset locally ("equals a fresh load against the
+        // current source and the current cache"), see `World::pass`.
+        // entries that only the fixpoint evaluation created may exist in the
+        // real cache too (its reload order is its own): keep them, the caller
+        // drops those the real cache does not have
+        for (k, e) in &fix.caches[c].entries {
+            if !self.caches[c].entries.contains_key(k) {
+                self.caches[c].entries.insert(k.clone(), e.clone());
+                if let Some(g) = fix.caches[c].graph.get(k) {
+                    self.caches[c].graph.insert(k.clone(), g.clone());
+                }
+            }
+        }
+        res.created = self.caches[c]
+            .entries
+            .keys()
+            .filter(|k| !keys_before.contains(*k))
+            .cloned()
+            .collect();
         res
     }
 
     /// What a fresh load of `(ty, id)` against the current source and cache
-    /// would give (evaluated on a copy: no state change, no faults).
-    pub fn fresh(&self, c: usize, ty: Ty, id: &str) -> Result<V, Stop> {
+    /// would give (evaluated on a copy: no state change, no faults), together
+    /// with the dependency set that load records.
+    pub fn fresh(&self, c: usize, ty: Ty, id: &str) -> (Result<V, Stop>, BTreeSet<Dep>) {
         let mut m = self.clone();
         m.trace_on = false;
         m.clear_faults();
-        m.compute(c, ty, id, &mut None)
+        let mut rec = Some(RecCtx {
+            cache: c,
+            deps: BTreeSet::new(),
+        });
+        let r = m.compute(c, ty, id, &mut rec);
+        (r, rec.unwrap().deps)
     }
 
     // ----------------------------------------------------------------- editing
